@@ -274,3 +274,13 @@ reg('C14', engine='llsym',
     note='Trusted: clang IR, llsym semantics, CPython contracts (PyErr_Fetch/Restore, unraisable hook). libffi closure '
          'trampoline, struct/long double/pointer signatures, sub-interpreter refresh are outside.',
     technique='symbolic execution of LLVM IR (backend + run-time generated module) with nondeterministic Python-function stubs, SMT (z3)')
+
+reg('C06', engine='llsym',
+    text='The real new_primitive_type on every NUL-free byte string up to 22 bytes: succeeds iff the string is a key of '
+         'model.ALL_PRIMITIVE_TYPES, and the ctype then has gcc\'s size/alignment and the kind/signedness gcc and model.py report; '
+         'search_standard_typename on every byte string up to 24 bytes returns i iff the string is the name PRIMITIVE_TO_INDEX maps '
+         'to i; build_primitive_type(num) for every int num names exactly PRIMITIVE_TO_INDEX^-1(num); parse_c_type on every table name '
+         'yields OP_PRIMITIVE with the same index; the constant tables of parse_c_type.h and cffi_opcode.py are compared directly.',
+    note='Trusted: clang IR (sizes are baked in by the compiler: compared with gcc\'s run-time answers), llsym, z3. '
+         'The Python tables and gcc facts are reference data read at run time from the working tree / the platform compiler.',
+    technique='symbolic execution of LLVM IR over symbolic name strings, SMT (z3); reference tables from the working tree and gcc')
